@@ -47,6 +47,9 @@ class DoraInterp(Interp):
         self.vprims = set()
         self.fprims = {}
         self._ids = 0
+        self.maxmode = False
+        self.max_inf = False
+        self.loop_depth = 0
         self.methods = fns
 
     # ------------------------------------------------------------------ calls
@@ -348,15 +351,13 @@ class DoraInterp(Interp):
 
     def _d_WHILE_EXPR(self, n):
         ns = doraq.nodes(n)
-        start = len(self.st.toks)
-        try:
+
+        def body():
             c = self.ev(ns[0])
-            if not (c.k == "bool" and c.a is False):
-                self.ev(ns[1])
-        except (_Break, _Continue):
-            pass
-        self.collapse_loop(start)
-        return UNIT
+            if c.k == "bool" and c.a is False:
+                raise _Break()
+            self.ev(ns[1])
+        return self.run_loop(body)
 
     def _d_FOR_EXPR(self, n):
         ns = doraq.nodes(n)
@@ -370,6 +371,22 @@ class DoraInterp(Interp):
                 self.ev(body)
             finally:
                 self.st.scopes.pop()
+        if xv.k == "range" and xv.a[0].k == "int" and xv.a[1].k == "int":
+            lo, hi = xv.a[0].a, xv.a[1].a
+            cnt = max(0, hi - lo)
+            has_break = any(x[0] == "BREAK_EXPR" for x in doraq.walk(body))
+            if has_break:
+                if cnt > 0:
+                    self.run_loop(once, count=cnt)
+                return UNIT
+            if cnt > 64:
+                raise Unsupported("for over a constant range of %d" % cnt)
+            for _i in range(cnt):
+                try:
+                    once()
+                except _Continue:
+                    continue
+            return UNIT
         if xv.k == "range" and xv.a[0].k == "int" and xv.a[0].a == 0:
             ht = []
             for t in xv.a[1].toks:
